@@ -51,7 +51,7 @@ def gen_case(r: np.random.Generator, i: int, tier: str) -> dict:
     cur = n
     nops = int(r.integers(1, 5 if tier == "quick" else 8))
     for _ in range(nops):
-        kind = str(r.choice(["sel", "int", "slice", "nslice", "mask", "partcat", "cat3", "pickle", "dict", "dict_nested"]))
+        kind = str(r.choice(["sel", "int", "slice", "nslice", "mask", "partcat", "cat3", "pickle", "dict", "dict_nested", "dict_nested_sorted"]))
         if kind == "sel":
             k = int(r.integers(1, cur + 3))
             idxs = [int(v) for v in r.integers(0, cur, k)]
@@ -205,6 +205,13 @@ def apply_impl(K, s, xp, op: dict):
         return K.from_dict(s.to_dict(flat=True))
     if k == "dict_nested":
         return K.from_dict(s.to_dict(flat=False))
+    if k == "dict_nested_sorted":
+        # the nested dictionary after a trip through a container that lists its members alphabetically (an HDF5 group, a JSON
+        # document written with sort_keys): a dictionary is the same dictionary whatever the order of its entries
+        d = s.to_dict(flat=False)
+        if isinstance(d.get("samples"), dict):
+            d["samples"] = dict(sorted(d["samples"].items()))
+        return K.from_dict(dict(sorted(d.items())))
     raise ValueError(k)
 
 
@@ -384,7 +391,7 @@ def run_one_impl(chk: core.Check, c: dict) -> dict:
             clause = {"sel": "selection keeps rows aligned", "int": "selection keeps rows aligned", "slice": "selection keeps rows aligned",
                       "nslice": "selection keeps rows aligned",
                       "mask": "selection keeps rows aligned", "partcat": "partition restores", "cat3": "partition restores",
-                      "pickle": "pickle round trip", "dict": "dict round trip", "dict_nested": "dict round trip"}[op["op"]]
+                      "pickle": "pickle round trip", "dict": "dict round trip", "dict_nested": "dict round trip", "dict_nested_sorted": "dict round trip"}[op["op"]]
             chk.fail(clause, case, f"op #{j} {op}: fields {sorted(set(bad))} differ from the plain-array reference",
                      {"cls": c["cls"], "op": op["op"], "fields": sorted(set(bad)), "carried": bool(ref.get("carried"))})
         # continue from the implementation's actual state
@@ -406,7 +413,7 @@ def m_smc_concat(rec, sig):
 
 def m_carried_evidence(rec, sig):
     s = rec["signature"]
-    return (s.get("cls") == "samples" and s.get("op") in ("cat3", "partcat", "dict", "dict_nested") and s.get("carried")
+    return (s.get("cls") == "samples" and s.get("op") in ("cat3", "partcat", "dict", "dict_nested", "dict_nested_sorted") and s.get("carried")
             and set(s.get("fields", [])) <= {"logZ", "logZerr", "evidence", "evidenceErr"} and s.get("fields"))
 
 
@@ -498,6 +505,25 @@ def check_corpus(chk: core.Check):
                     chk.case(case if chk.evaluations < 40 else None, json.dumps(case))
                 except Exception as e:   # noqa
                     chk.fail("dict round trip total", case, repr(e)[:300], {"cls": cname, "op": "dict", "corpus": "empty", "exc": type(e).__name__})
+        # (d) pieces that do not all carry the same optional per-sample fields (rows that already have a likelihood joined with fresh
+        #     draws that only have log q): a field some piece lacks is ABSENT in the result - never a column shorter than x
+        for cname, K in (("base", BaseSamples), ("smc", SMCSamples)):
+            extra = {"beta": 0.5} if cname == "smc" else {}
+            case = {"level": "corpus", "what": "concatenation of pieces with different optional fields", "cls": cname, "ns": nsn}
+            chk.count("corpus:mixed_fields")
+            chk.case(case if chk.evaluations < 40 else None, json.dumps(case))
+            try:
+                a_ = K(x=xs[:4], xp=xp, dtype=dt, log_likelihood=cols["log_likelihood"][:4], log_q=cols["log_q"][:4], **extra)
+                b_ = K(x=xs[4:], xp=xp, dtype=dt, log_q=cols["log_q"][4:], **extra)
+                u = K.concatenate([a_, b_])
+                nrow = len(npf(u.x))
+                bad = [k for k in cols if getattr(u, k) is not None and len(npf(getattr(u, k))) != nrow]
+                if nrow != n or bad or u.log_q is None or not np.array_equal(npf(u.log_q), cols["log_q"]):
+                    chk.fail("concatenating the pieces of a partition restores the original", case,
+                             f"{nrow} rows; columns of another length than x: {bad}; log_q kept: {u.log_q is not None}",
+                             {"cls": cname, "op": "cat_mixed", "fields": bad, "corpus": "mixed_fields"})
+            except Exception as e:   # noqa
+                chk.fail("selection total", case, repr(e)[:300], {"cls": cname, "op": "cat_mixed", "corpus": "mixed_fields", "exc": type(e).__name__})
         # (c) evidence attached to a set without weights
         for missing in ("log_q", "log_likelihood", "log_prior"):
             for how in ("to_standard_samples", "attribute"):
